@@ -597,6 +597,13 @@ def run_case(func, kwargs, opts):
                         # observed by the float run at the path's seed is still a violation of the real code
                         if p["status"] == "inconclusive" and o["status"] == "violated" and o["label"] != "!exception":
                             tv["mismatches"].append(dict(label=o["label"], sym="inconclusive", conc=o["detail"][:300], values=p["tv_values"]))
+                        elif (p["status"] == "ok" and o["status"] == "violated" and o["label"].endswith(":!exception")
+                              and not any(w in o["detail"] for w in ("LinAlgError", "ZeroDivisionError", "FloatingPointError", "ingular"))):
+                            # the float run raised inside a guarded library call that the symbolic run of the same path completed: the model
+                            # and the real code diverge (e.g. an attribute real arrays have and the symbolic arrays lacked).  Numerical domain
+                            # errors at a degenerate seed (singular matrix, division by zero) are not counted: the exact run treats them as
+                            # domain assumptions
+                            tv["mismatches"].append(dict(label=o["label"], sym="absent", conc=o["detail"][:300], values=p["tv_values"]))
                         continue
                     if ss.startswith("holds") and o["status"] == "violated":
                         tv["mismatches"].append(dict(label=o["label"], sym=ss, conc=o["detail"][:300], values=p["tv_values"]))
